@@ -14,7 +14,7 @@ from declib2 import fill, Dec2, gen_block, spec, model1, has_zero_offset
 from capi import Lib
 from vlib import Oracle, build_lib, hx, md5
 
-THEOREMS = ["C05_valid_decodes", "C05_valid_decodes_safe", "C05_continue_step", "C05_success_sound_strict_refuted"]
+THEOREMS = ["C05_valid_decodes", "C05_valid_decodes_safe", "C05_continue_step", "C05_success_sound", "C05_success_sound_strict_refuted"]
 ORACLES = ["block", "dec2"]
 CORRESPONDENCE = [
     "dec_generic/decompress_usingDict model == LZ4_decompress_safe(_usingDict) on valid blocks (return value, whole destination image), fast loop on",
@@ -41,7 +41,7 @@ def build(tier):
 
 def gen_cases(tier, seed):
     rng = random.Random(seed)
-    nv, ns, nc, nb = {"quick": (100, 24, 30, 12), "search": (250, 48, 120, 20), "thorough": (700, 200, 300, 100)}[tier]
+    nv, ns, nc, nb = {"quick": (100, 24, 30, 12), "search": (250, 48, 120, 20), "thorough": (400, 96, 200, 48)}[tier]
     cases = []
     for i in range(nv):
         cases.append({"kind": "valid", "bseed": rng.randrange(1 << 48), "count": 50})
